@@ -856,7 +856,12 @@ pub fn place_strategy() -> BoxedStrategy<Place> {
 /// Simple, well-behaved start tags (names and plain values) — the wild ones belong to C05.
 pub fn simple_tag_strategy() -> BoxedStrategy<StartTag> {
     let name = prop_oneof![Just("name"), Just("data-x"), Just("k_1"), Just("note"), Just("имя")];
-    let value = proptest::string::string_regex("[a-z0-9 ._:/é-]{0,10}").unwrap();
+    // (one value in five holds a look-alike of a comment marker of some language: only the LEADING marker of a
+    // comment is a marker)
+    let value = prop_oneof![
+        4 => proptest::string::string_regex("[a-z0-9 ._:/é-]{0,10}").unwrap(),
+        1 => prop_oneof![Just("a--b -- c"), Just("http://x//y"), Just("#c # d"), Just("x;y ; z"), Just("-- DROP"), Just("// see"), Just("%% rem")].prop_map(String::from),
+    ];
     let attr = (name, value, 0u8..4, prop_oneof![Just(" "), Just("  "), Just("\t"), Just("\n")]).prop_map(|(n, v, kind, ws)| Attr {
         name: n.to_string(),
         val: match kind {
